@@ -615,7 +615,7 @@ var c12Kinds = []string{"set", "map", "uuid", "row", "condition", "mutation", "o
 	"monitor_request", "monitor_select", "cond_since_reply", "result", "error", "schema", "schema"}
 
 func c12Child(r *ev.Run, batch int) {
-	n := r.N(5000, 125000)
+	n := r.N(5000, 500000)
 	for i := 0; i < n; i++ {
 		kind := c12Kinds[i%len(c12Kinds)]
 		g := wgen{prng.Derive(r.Seed, "C12", batch, i)}
